@@ -942,7 +942,8 @@ def mode_effects(eng, res, eff, set_):
             home_ok = eng.prove_cmp(st, 'eq', x, NumV(None, 0, 'u32')) is True
             if not home_ok:
                 probs.append('cursor column %s after DECCOLM, documented home' % g.term(eng, st, x))
-            full = any(ev[0] == 'set.extend' and ev[1] == ('S', 'dirty') for ev in evs) and any(ev[0] == 'loop-head' and 'erase_in_display' in ev[1] for ev in evs)
+            # the whole screen is erased: ED 2 is performed (what ED 2 does is C07's business)
+            full = any(ev[0] == 'call' and ev[1] == ep('erase_in_display') and len(ev[2]) >= 1 and ev[2][0] in (('Some', 2), ('Some', 3)) for ev in evs)
             if not full:
                 probs.append('screen is not erased')
         elif eff == DECOM:
@@ -982,17 +983,17 @@ def run_c04(ctx, chk):
     g.frame(ctx, chk, 'draw', ['buffer', 'dirty', 'cursor.x', 'cursor.y'])
     funcs = closures_of(ctx, {ep('draw')})
     ng = g.r_grid(ctx, chk, funcs | closures_of(ctx, {ep('insert_characters')}))
-    chk.floor('grid key sites', ng, 4)
+    chk.cover('grid key sites', ng.eps, ['draw'])
     na, nb = g.r_absent(ctx, chk, funcs)
     nd = g.r_dirty(ctx, chk, funcs)
-    chk.floor('dirty-covered write sites', nd, 2)
+    chk.cover('dirty-covered write sites', nd.eps, ['draw'])
     copyall_charopts(ctx, chk)
     # D2/D3: every cell stored by draw itself is at the cursor row; at the cursor column or the next one; built from the cursor rendition
     agg = {}
     draw = ep('draw')
     for e in sr['events']:
         ev = e['ev']
-        if e['func'] != draw or ev[0] != 'map.insert' or g.level_of(e) != 'cell':
+        if e['func'] not in funcs or e['ep'] != draw or ev[0] != 'map.insert' or g.level_of(e) != 'cell':
             continue
         st = e['st']
         row = g.row_of_path(ev[1])
@@ -1019,7 +1020,7 @@ def run_c04(ctx, chk):
                                                                                     g.term(eng, st, col) if isinstance(col, NumV) else col, g.term(eng, st, cx), pv)
     for (f, c), a in sorted(agg.items()):
         chk.instance('R-FOOT', f, c, a['ok'], detail=a['why'] or '%d visits' % a['n'], span=a['span'], what='draw stores a cell elsewhere or without the cursor rendition: ' + a['why'])
-    chk.floor('draw cell stores', len(agg), 3)
+    chk.floor('draw cell stores', len(agg), 1)
     # D4: cursor never beyond the pending-wrap column (inductive, C09) and the advance is min(x + w, columns)
     segs = [s for s in sr['segments'] if s['ep'] == draw and s['func'] == draw]
     bad = []
@@ -1038,8 +1039,9 @@ def run_c04(ctx, chk):
         st = s['st']
         pre, evs = g.seg_events(dict(kind='backedge', st=st, func=draw, head=s['head']))
         irm = mode_fact(eng, st, IRM)
-        stores = [i for i, ev in enumerate(evs) if ev[0] == 'map.insert' and ev[-1] == draw]
-        ich = [i for i, ev in enumerate(evs) if ev[0] == 'loop-head' and 'insert_characters' in ev[1]]
+        stores = [i for i, ev in enumerate(evs) if ev[0] == 'map.insert' and ev[-1] in funcs and len(ev[1]) == 3]
+        # the shift is the call of insert_characters (however that method goes about it: C13 decides its effect)
+        ich = [i for i, ev in enumerate(evs) if ev[0] == 'call' and ev[1] == ep('insert_characters')]
         if irm is True and stores:
             n_irm += 1
             if not ich or ich[0] > stores[0]:
@@ -1078,7 +1080,7 @@ def run_c04(ctx, chk):
             continue
         w = ws[0]
         pre, evs = g.seg_events(dict(kind='backedge', st=st, func=draw, head=s['head']))
-        stores = [ev for ev in evs if ev[0] == 'map.insert' and ev[-1] == draw and len(ev[1]) == 3]
+        stores = [ev for ev in evs if ev[0] == 'map.insert' and ev[-1] in funcs and len(ev[1]) == 3]
         if not stores:
             continue
         n_pw += 1
